@@ -468,10 +468,37 @@ def symbolic_mode(extra_modules=(), prefixes=_PREFIXES):
                 if any(a is not b for a, b in zip(new, val.__defaults__)):
                     saved_defaults.append((val, val.__defaults__))
                     val.__defaults__ = new
+    _ACTIVE.append((saved, saved_defaults))
     try:
         yield PROXY
     finally:
+        _ACTIVE.pop()
         for d, name, val in saved:
             d[name] = val
         for fn, dflt in saved_defaults:
+            fn.__defaults__ = dflt
+
+
+_ACTIVE = []
+
+
+@contextlib.contextmanager
+def concrete_mode():
+    """temporarily undo the symbolic patches (to build meshes / regions with real NumPy)"""
+    if not _ACTIVE:
+        yield
+        return
+    saved, saved_defaults = _ACTIVE[-1]
+    cur = [(d, name, d[name]) for d, name, _v in saved]
+    curd = [(fn, fn.__defaults__) for fn, _d in saved_defaults]
+    for d, name, val in saved:
+        d[name] = val
+    for fn, dflt in saved_defaults:
+        fn.__defaults__ = dflt
+    try:
+        yield
+    finally:
+        for d, name, val in cur:
+            d[name] = val
+        for fn, dflt in curd:
             fn.__defaults__ = dflt
